@@ -22,8 +22,8 @@ CHECKS = {
         technique="Lean 4 proof (partition and index-list invariants of the splitter state machines; shape of every reducible atom) + exhaustive short-string correspondence + reference tokenizer",
         ref="§4 C16"),
     "C05": dict(
-        text="Theorems C05_load_frame (for every splitter without header/footer: before = lines through the DDBEGIN line, after = lines from the DDEND line), C05_char_byte (char mode moves the last region byte, unchanged, in front of the suffix), C05_content_frame, C05_frame_minimize and C05_frame_pairs (every proposal and the final best of minimize / minimize-around / minimize-balanced keep before and after, for every test, clock and option setting; the pair strategies through the generic closed-predicate invariant of the pass loop). Tied to the code by loaders + all 7 strategies (+move) x 5 splitters on marker files with every terminator style; the monitor compares prefix/suffix (and the byte before DDEND in char mode) of every file presented to the test.",
-        note=NOTE + "Brace collapsing (re-load of the collapsed text), the two rewriting strategies and the experimental move: monitored on the real code, not proved.",
+        text="Theorems C05_load_frame (for every splitter without header/footer: before = lines through the DDBEGIN line, after = lines from the DDEND line), C05_char_byte (char mode moves the last region byte, unchanged, in front of the suffix), C05_content_frame, C05_frame_minimize and C05_frame_pairs (every proposal and the final best of minimize / minimize-around / minimize-balanced keep before and after, for every test, clock and option setting; the pair strategies through the generic closed-predicate invariant of the pass loop), C05_frame_move (minimize-balanced WITH the experimental move, modelled in PairsMove.lean: removals and both kinds of moves keep before and after). Tied to the code by loaders + all 7 strategies (+move) x 5 splitters on marker files with every terminator style; the monitor compares prefix/suffix (and the byte before DDEND in char mode) of every file presented to the test.",
+        note=NOTE + "Brace collapsing (re-load of the collapsed text) and the two rewriting strategies: monitored on the real code, not proved.",
         technique="Lean 4 proof (load spec + frame invariant through the strategy loops) + differential execution on marker files",
         ref="§4 C05"),
     "C13": dict(
@@ -67,7 +67,7 @@ CHECKS = {
         technique="Lean 4 proof (exact core from 1-minimality + deletion invariant) + differential execution on (n, core) grids with the bound as monitor",
         ref="§4 C10"),
     "C14": dict(
-        text="Theorems C14_pow2 (is_power_of_two(k) iff k = 2^j, all integers), C14_process_args (start-up refuses exactly non-powers of two for the effective min/max; --chunk-size=n == min=max=n, repeat=never), C14_blocks (every minimize candidate = best minus one contiguous non-empty block; chunk size a power of two, <= min(max, lp2 n), non-increasing; block = chunk size unless it is the entire remainder), C14_min_clause (with power-of-two min <= max a candidate deletes fewer than min atoms only once at most min atoms remain), C14_resweep_decision + C14_removed_flag (the round-end decision sweeps the same size again only after a sweep that removed something, never under repeat=never, under repeat=last only at the smallest size; otherwise the size strictly decreases), C14_deadline_minimize and C14_deadline_pairs (minimize, minimize-around and minimize-balanced make no proposal — hence start no test — once the clock has passed start+limit, for every test and clock). The resweep rule over the whole proposal log and the time limit of the experimental move: monitor on the real code (blocks are also checked on testcases with non-reducible parts between the atoms).",
+        text="Theorems C14_pow2 (is_power_of_two(k) iff k = 2^j, all integers), C14_process_args (start-up refuses exactly non-powers of two for the effective min/max; --chunk-size=n == min=max=n, repeat=never), C14_blocks (every minimize candidate = best minus one contiguous non-empty block; chunk size a power of two, <= min(max, lp2 n), non-increasing; block = chunk size unless it is the entire remainder), C14_min_clause (with power-of-two min <= max a candidate deletes fewer than min atoms only once at most min atoms remain), C14_resweep_decision + C14_removed_flag (the round-end decision sweeps the same size again only after a sweep that removed something, never under repeat=never, under repeat=last only at the smallest size; otherwise the size strictly decreases), C14_deadline_minimize, C14_deadline_pairs and C14_deadline_move (minimize, minimize-around, minimize-balanced and minimize-balanced with the experimental move make no proposal — hence start no test — once the clock has passed start+limit, for every test and clock). The resweep rule over the whole proposal log: monitor on the real code (blocks are also checked on testcases with non-reducible parts between the atoms).",
         note=NOTE + "min > max is a recorded finding; --repeat-first-round counts as 'the first sweep removed something' (documented option). time.time() is replaced by a scripted clock.",
         technique="Lean 4 proof (proposal-log invariant over the minimize loop; arithmetic on bit_length) + differential execution under option/verdict/clock grids",
         ref="§4 C14"),
